@@ -37,6 +37,7 @@ def dispatch (st : DState) (line : String) : DState × String :=
         fun _ => Verbs.cfec st.codes toks,
         fun _ => Verbs.cbin toks,
         fun _ => Verbs.canalog toks,
+        fun _ => Verbs.cconstraint toks,
         fun _ => natVerb verb args,
         fun _ => Verbs.c16 toks,
         fun _ => Verbs.c17 toks,
